@@ -166,7 +166,7 @@ def run(tier):
     rep.exhaustive = True
     rep.assumptions = ["TLC and the BigInt module (sanity theorems checked in this run; results cross-checked with Python integers)",
                        "canonical text renderer and LeafAnswer projection of the harness"]
-    rep.traces = 0
+    rep.traces = len(vecs)  # spec behaviours (one-step) replayed into the implementation
     return rep.finish()
 
 
